@@ -421,6 +421,7 @@ def observe(ctx, case, ans):
     elif st == "err":
         msg = (ans.get("err") or {}).get("message") or ""
         ob["status"] = "notfound" if msg.startswith(NOTFOUND) else "error:" + msg[:80]
+        ob["err_at"] = [(ans.get("err") or {}).get("file"), (ans.get("err") or {}).get("begin_line")]
     else:
         ob["status"] = f"{st}:{(ans.get('panic') or ans.get('why') or '')[:80]}"
     if case["mode"] == "std":
@@ -505,7 +506,7 @@ def plan_walk(case, pre, results):
         if c >= len(chains):
             out.append(None)
             continue
-        out.append((importer, chains[c][j]))
+        out.append((importer, chains[c][j], c))
         if not res.startswith("L:"):
             break
         if file_ext(res[2:]) == "css" or j == len(chains[c]) - 1:
@@ -591,13 +592,14 @@ def evaluate(ctx, cases, count=True):
     answers = pool.map([impl_job(ctx, c) for c in cases], timeout=20)
     impls = [observe(ctx, c, a) for c, a in zip(cases, answers)]
     # P̂ on the implementation's own observation, along its own chain
-    dlines, dspan = [], []
+    dlines, dspan, walks = [], [], []
     for ci, (case, pre, ob) in enumerate(zip(cases, pres, impls)):
         start = len(dlines)
         walk = plan_walk(case, pre, [r for r, _ in ob["steps"]]) if ob["steps"] is not None else [None]
+        walks.append(walk)
         if case["mode"] == "mem" and None not in walk:
             allf = [case["entry"]] + sorted(case["files"])
-            for (importer, step), (res, calls) in zip(walk, ob["steps"]):
+            for (importer, step, _), (res, calls) in zip(walk, ob["steps"]):
                 dlines.append("import check %s %s %s %s %s %s %s %s" % (
                     AF_SPEC, importer, lst([P(pre, l) for l in case["lps"]]), lst([P(pre, f) for f in allf]),
                     lst([P(pre, d) for d in case["dirs"]]), step_tok(step), res, lst(calls)))
@@ -608,6 +610,7 @@ def evaluate(ctx, cases, count=True):
     verdicts = []
     variant_lines, variant_owner = [], []
     attr_lines, attr_owner = [], []
+    exact_budget = 1200                                  # failing cases per batch whose class tag is computed exactly
     for ci, (case, pre, ob) in enumerate(zip(cases, pres, impls)):
         v = {"case": case, "impl": ob, "tie": None, "direct": None, "tags": [], "why": [], "ambiguous": False,
              "nontrivial": False, "unsupported": False}
@@ -649,12 +652,25 @@ def evaluate(ctx, cases, count=True):
             last_e = bool(ob["steps"]) and ob["steps"][-1][0] == "E"
             if ob["status"] not in ("ok", "notfound") or (ob["status"] == "notfound") != last_e:
                 why.append(f"status {ob['status']} does not fit the loads observed")
+            walk = walks[ci]
+            if ob["status"] == "notfound" and last_e and walk and walk[-1] is not None:
+                # "a URL with no match is an error at the import site": the importing file, the statement's line
+                imp_file, _, chain_no = walk[-1]
+                site = [imp_file, chain_no if imp_file == P(pre, case["entry"]) else 0]
+                if ob.get("err_at") != site:
+                    why.append(f"error reported at {ob.get('err_at')} instead of the import site {site}")
             if ob["status"] == "ok" and ob["steps"] is not None:
                 want = expected_markers(case, pre, [r for r, _ in ob["steps"]])
                 if ob["markers"] != want:
                     why.append("output markers differ from the files read")
             v["result_level"] = res_fail
-            if why and len(why) == len(failing_checks) and not v["ambiguous"]:
+            if why and len(why) == len(failing_checks) and not v["ambiguous"] and v["tie"] and exact_budget <= 0:
+                # grass's observation IS the as-found model's (tie holds), and that model's own output satisfies
+                # `checkLoad af_cur` (theorems checkLoad_model / C13_checkLoad_cached): the failure of the `.spec`
+                # predicate is the as-found switches'.  Which of them exactly is worked out for a sample only.
+                v["tags"], v["by_tie"] = ["as-found"], True
+            elif why and len(why) == len(failing_checks) and not v["ambiguous"]:
+                exact_budget -= 1
                 # every reason is a failed `checkLoad .spec`: is it explained by the known as-found switches?
                 # (judged on grass's own observation, independent of the tie)
                 for line in failing_checks:
@@ -897,7 +913,10 @@ def run(tier, seed):
         "extensions, .import variants; explicit URLs: literal, partial, import-only siblings) plus decoys (other extensions, "
         "bare name, stem.scss for dotted names, directory without index); exhaustive single-location layouts of <=2 (quick) / "
         "<=3 (thorough) present files for 3 kinds x 5 URL shapes; real decoy files on disk in the runner's cwd at every "
-        "probed path for a sample; a sample on the real Fs (temp tree); plain-CSS import arguments. A case is distinct by its "
+        "probed path for a sample (own tree per case); further loads started by the entry itself after the nested chain, and "
+        "the same URL string loaded 2-4 times and then again from a file in another directory (stylesheet cache in play); "
+        "a sample on the real Fs (temp tree); plain-CSS import arguments; for a failed load the error site (importing file, "
+        "line of the statement). A case is distinct by its "
         "tree+program and non-trivial when some load has >=2 existing candidates of the specified search.")
     ck.assumptions = [
         "paths are '/'-separated component lists; URLs relative, no empty or '.' component (driver answers `unsupported` otherwise)",
@@ -977,7 +996,9 @@ def _run(ck, ctx, tier):
     untagged, seen_tagsets = [], set()
     for v in failing:
         ts = tuple(v["tags"])
-        if ts and ts in seen_tagsets:
+        if v.get("by_tie"):
+            ck.cov["impl_property_failures"] += 1          # explained by the as-found model (tie holds), see evaluate()
+        elif ts and ts in seen_tagsets:
             ck.cov["impl_property_failures"] += 1          # same class as an already reported known finding
         elif ts:
             if ck.impl_violation(case_text(v["case"]), describe(v), tags=v["tags"]):
